@@ -369,38 +369,25 @@ theorem pII_nobchange_sound (p : Par) (rows : List Row) (hpv : p.pivtol = 0)
 theorem ratio1_eq_ratio2 (p : Par) (r : Row) (hpf : p.pftol = 0) : ratio1 p r = ratio2 p r := by
   unfold ratio1 ratio2; rw [hpf]; simp only [add_zero]
 
-theorem pII_bchange_sound (p : Par) (rows : List Row) (hpv : p.pivtol = 0) (hpf : p.pftol = 0)
-    (hfeas : ∀ r ∈ rows, inBounds p 0 r r.x) (h : (pII p rows).stat = .bchange) :
-    ∃ t c, 0 ≤ t ∧ (pII p rows).tz = (if p.incr then t else -t) ∧ (pII p rows).boundch = false ∧
-      0 ≤ (pII p rows).lindex ∧ rows[(pII p rows).lindex.toNat]? = some c ∧
-      (pII p rows).pivot = c.y ∧ c.y ≠ 0 ∧
-      (∀ r ∈ rows, inBounds p 0 r (newx p r t)) ∧
-      (((pII p rows).lvstat = statLower ∧ c.l ≠ -p.inf ∧ newx p c t = c.l) ∨
-       ((pII p rows).lvstat = statUpper ∧ c.u ≠ p.inf ∧ newx p c t = c.u)) := by
+/-- exact arithmetic, tolerance 0, feasible start: what pass 2 selects when pass 1 found a finite
+`t_max` — the row attains `t_max`, the step `t_max` is non-negative and keeps every row inside its
+bounds, and the selected row reaches the bound it moves towards -/
+theorem select_exact (p : Par) (rows : List Row) (hpv : p.pivtol = 0) (hpf : p.pftol = 0)
+    (hfeas : ∀ r ∈ rows, inBounds p 0 r r.x) (tmax : Rat) (kmin : Int)
+    (hout : pass1 p rows 0 (p.inf, -1) = (tmax, kmin)) (hlt : tmax < p.inf)
+    (s : Sel) (hs : pass2 (fun a b => decide (a ≤ b)) p tmax kmin rows 0 {} = s) (hidx : ¬ s.indx < 0) :
+    ∃ (j : Nat) (c : Row), rows[j]? = some c ∧ s.indx = (j : Int) ∧ s.tz = tmax ∧ s.yi = c.y ∧ s.ayi = absR c.y ∧
+      c.y ≠ 0 ∧ 0 ≤ tmax ∧ (∀ r ∈ rows, inBounds p 0 r (newx p r tmax)) ∧
+      ((towardLower p c = true ∧ c.l ≠ -p.inf ∧ tmax = (c.x - c.l) / absR c.y) ∨
+       (towardLower p c = false ∧ towardUpper p c = true ∧ c.u ≠ p.inf ∧ tmax = (c.u - c.x) / absR c.y)) := by
   have hfeas' : ∀ r ∈ rows, inBounds p p.pftol r r.x := by rw [hpf]; exact hfeas
-  unfold pII pIIWith at h ⊢
   obtain ⟨h1, h2, h3⟩ := pass1_spec p rows 0 p.inf (-1)
-  generalize hout : pass1 p rows 0 (p.inf, -1) = out at h h1 h2 h3 ⊢
-  obtain ⟨tmax, kmin⟩ := out
-  dsimp only at h h1 h2 h3 ⊢
-  split at h
-  · simp [noRow] at h
-  rename_i hnb
-  rw [if_neg hnb]
-  split at h
-  · simp [noRow] at h
-  rename_i hub
-  rw [if_neg hub]
-  have hlt : tmax < p.inf := not_le.mp hub
+  rw [hout] at h1 h2 h3
+  dsimp only at h1 h2 h3
   have hsp := pass2_spec (fun a b => decide (a ≤ b)) p tmax kmin rows 0 {}
-  generalize hs : pass2 (fun a b => decide (a ≤ b)) p tmax kmin rows 0 {} = s at h hsp ⊢
-  split at h
-  · simp [noRow] at h
-  rename_i hidx
-  rw [if_neg hidx]
-  rcases hsp with hsp | ⟨j, c, hj, hi, hrel, htz, hyi, _, hq⟩
+  rw [hs] at hsp
+  rcases hsp with hsp | ⟨j, c, hj, hi, hrel, htz, hyi, hayi, hq⟩
   · exfalso; apply hidx; rw [hsp]; decide
-  -- the chosen row attains t_max
   have hr12 := ratio1_eq_ratio2 p c hpf
   have hcm : c ∈ rows := List.mem_of_getElem? hj
   have htm : ratio2 p c = tmax := by
@@ -453,41 +440,36 @@ theorem pII_bchange_sound (p : Par) (rows : List Row) (hpv : p.pivtol = 0) (hpf 
     have := row_step_ok p r hpv (hfeas' r hr) tmax h1 (h2 r hr) tmax ht0 (le_refl _)
     rw [hpf] at this
     exact this
-  have htz0 : ¬ s.tz < 0 := by rw [htz, htm]; exact not_lt.mpr ht0
-  rw [if_neg htz0]
-  dsimp only
-  have hidx' : s.indx.toNat = j := by rw [hi]; simp
-  refine ⟨tmax, c, ht0, by rw [htz, htm], rfl, by rw [hi]; exact Int.natCast_nonneg _,
-    by rw [hidx']; exact hj, hyi, hy0, hstep, ?_⟩
-  rw [hyi]
-  have hapos := relevant_pos (le_of_eq hpv.symm) hrel
-  rcases hcase with ⟨hL, hll, ht⟩ | ⟨hL, hU, huu, ht⟩
-  · left
+  exact ⟨j, c, hj, by rw [hi]; simp, by rw [htz, htm], hyi, hayi, hy0, ht0, hstep, hcase⟩
+
+/-- where the selected row lands -/
+theorem lands (p : Par) (c : Row) (hy0 : c.y ≠ 0) (tmax : Rat) :
+    (towardLower p c = true → tmax = (c.x - c.l) / absR c.y → newx p c tmax = c.l) ∧
+    (towardLower p c = false → towardUpper p c = true → tmax = (c.u - c.x) / absR c.y → newx p c tmax = c.u) := by
+  constructor
+  · intro hL ht
     unfold towardLower at hL
     cases hinc : p.incr with
     | true =>
       rw [hinc] at hL
       have hy : 0 < c.y := by simpa using hL
-      refine ⟨by simp [hy], hll, ?_⟩
       unfold newx; rw [hinc, ht, absR_of_pos hy]; simp only [if_true]
       field_simp
       ring
     | false =>
       rw [hinc] at hL
       have hy : c.y < 0 := by simpa using hL
-      refine ⟨by simp [not_lt.mpr (le_of_lt hy)], hll, ?_⟩
       unfold newx; rw [hinc, ht, absR_of_neg hy]
       have : -c.y ≠ 0 := by linarith
       simp only [Bool.false_eq_true, if_false]
       field_simp
       ring
-  · right
+  · intro _ hU ht
     unfold towardUpper at hU
     cases hinc : p.incr with
     | true =>
       rw [hinc] at hU
       have hy : c.y < 0 := by simpa using hU
-      refine ⟨by simp [not_lt.mpr (le_of_lt hy)], huu, ?_⟩
       unfold newx; rw [hinc, ht, absR_of_neg hy]; simp only [if_true]
       have : -c.y ≠ 0 := by linarith
       field_simp
@@ -495,10 +477,197 @@ theorem pII_bchange_sound (p : Par) (rows : List Row) (hpv : p.pivtol = 0) (hpf 
     | false =>
       rw [hinc] at hU
       have hy : 0 < c.y := by simpa using hU
-      refine ⟨by simp [hy], huu, ?_⟩
       unfold newx; rw [hinc, ht, absR_of_pos hy]
       simp only [Bool.false_eq_true, if_false]
       field_simp
       ring
+
+theorem pII_bchange_sound (p : Par) (rows : List Row) (hpv : p.pivtol = 0) (hpf : p.pftol = 0)
+    (hfeas : ∀ r ∈ rows, inBounds p 0 r r.x) (h : (pII p rows).stat = .bchange) :
+    ∃ t c, 0 ≤ t ∧ (pII p rows).tz = (if p.incr then t else -t) ∧ (pII p rows).boundch = false ∧
+      0 ≤ (pII p rows).lindex ∧ rows[(pII p rows).lindex.toNat]? = some c ∧
+      (pII p rows).pivot = c.y ∧ c.y ≠ 0 ∧
+      (∀ r ∈ rows, inBounds p 0 r (newx p r t)) ∧
+      (((pII p rows).lvstat = statLower ∧ c.l ≠ -p.inf ∧ newx p c t = c.l) ∨
+       ((pII p rows).lvstat = statUpper ∧ c.u ≠ p.inf ∧ newx p c t = c.u)) := by
+  unfold pII pIIWith at h ⊢
+  generalize hout : pass1 p rows 0 (p.inf, -1) = out at h ⊢
+  obtain ⟨tmax, kmin⟩ := out
+  dsimp only at h ⊢
+  split at h
+  · simp [noRow] at h
+  rename_i hnb
+  rw [if_neg hnb]
+  split at h
+  · simp [noRow] at h
+  rename_i hub
+  rw [if_neg hub]
+  have hlt : tmax < p.inf := not_le.mp hub
+  generalize hs : pass2 (fun a b => decide (a ≤ b)) p tmax kmin rows 0 {} = s at h ⊢
+  split at h
+  · simp [noRow] at h
+  rename_i hidx
+  rw [if_neg hidx]
+  obtain ⟨j, c, hj, hi, htz, hyi, _, hy0, ht0, hstep, hcase⟩ :=
+    select_exact p rows hpv hpf hfeas tmax kmin hout hlt s hs hidx
+  have htz0 : ¬ s.tz < 0 := by rw [htz]; exact not_lt.mpr ht0
+  rw [if_neg htz0]
+  dsimp only
+  have hidx' : s.indx.toNat = j := by rw [hi]; simp
+  refine ⟨tmax, c, ht0, by rw [htz], rfl, by rw [hi]; exact Int.natCast_nonneg _,
+    by rw [hidx']; exact hj, hyi, hy0, hstep, ?_⟩
+  rw [hyi]
+  obtain ⟨hlandL, hlandU⟩ := lands p c hy0 tmax
+  rcases hcase with ⟨hL, hll, ht⟩ | ⟨hL, hU, huu, ht⟩
+  · left
+    refine ⟨?_, hll, hlandL hL ht⟩
+    unfold towardLower at hL
+    cases hinc : p.incr with
+    | true =>
+      rw [hinc] at hL
+      have hy : 0 < c.y := by simpa using hL
+      simp [hy]
+    | false =>
+      rw [hinc] at hL
+      have hy : c.y < 0 := by simpa using hL
+      simp [not_lt.mpr (le_of_lt hy)]
+  · right
+    refine ⟨?_, huu, hlandU hL hU ht⟩
+    unfold towardUpper at hU
+    cases hinc : p.incr with
+    | true =>
+      rw [hinc] at hU
+      have hy : c.y < 0 := by simpa using hU
+      simp [not_lt.mpr (le_of_lt hy)]
+    | false =>
+      rw [hinc] at hU
+      have hy : 0 < c.y := by simpa using hU
+      simp [hy]
+
+/-! ### the dual phase-II test -/
+
+/-! ### the dual phase-II test -/
+
+theorem dIICore_never_failed (leq : Rat → Rat → Bool) (p : Par) (hp : 0 ≤ p.pivtol) (rows : List Row)
+    (cols : List DCol) : (dIICore leq p rows cols).stat ≠ .failed := by
+  unfold dIICore
+  obtain ⟨h1, _, h3⟩ := pass1_spec p rows 0 p.inf (-1)
+  generalize hout : pass1 p rows 0 (p.inf, -1) = out at h1 h3
+  obtain ⟨tmax, kmin⟩ := out
+  dsimp only at h1 h3 ⊢
+  split
+  · simp
+  · rename_i hub
+    have hlt : tmax < p.inf := not_le.mp hub
+    have hk : ∃ j r, rows[j]? = some r ∧ kmin = ((0 + j : Nat) : Int) ∧ relevant p r = true := by
+      rcases h3 with h3 | ⟨j, r, hj, hk, hrel, _, _⟩
+      · have : tmax = p.inf := by have := congrArg Prod.fst h3; simpa using this
+        linarith
+      · exact ⟨j, r, hj, hk, hrel⟩
+    obtain ⟨j, r, hj, hk, hrel⟩ := hk
+    have hidx := pass2_hits leq p hp tmax kmin rows 0 {} j r hj hk hrel (Or.inr rfl)
+    rw [if_neg (not_lt.mpr hidx)]
+    split
+    · split
+      · simp
+      · split <;> simp
+    · simp
+
+theorem dIIWith_never_failed (leq : Rat → Rat → Bool) (inf pivtol dftol : Rat) (hp : 0 ≤ pivtol)
+    (lvUpper : Bool) (cols : List DCol) :
+    (dIIWith leq inf pivtol dftol lvUpper cols).stat ≠ .failed :=
+  dIICore_never_failed leq (dPar inf pivtol dftol) hp _ cols
+
+/-- RATIO_UNBOUNDED on the dual side: every dual step up to `inf` keeps every column's dual slack
+non-negative (0 for a free column), up to the tolerance -/
+theorem dII_unbounded_sound (inf dftol : Rat) (lvUpper : Bool) (cols : List DCol)
+    (hfeas : ∀ c ∈ cols, inBounds (dPar inf 0 dftol) dftol (toRow inf lvUpper c) (toRow inf lvUpper c).x)
+    (h : (dII inf 0 dftol lvUpper cols).stat = .unbounded) :
+    ∀ c ∈ cols, ∀ t, 0 ≤ t → t ≤ inf →
+      inBounds (dPar inf 0 dftol) dftol (toRow inf lvUpper c) (newx (dPar inf 0 dftol) (toRow inf lvUpper c) t) := by
+  unfold dII dIIWith dIICore at h
+  obtain ⟨h1, h2, _⟩ := pass1_spec (dPar inf 0 dftol) (cols.map (toRow inf lvUpper)) 0 (dPar inf 0 dftol).inf (-1)
+  generalize hout : pass1 (dPar inf 0 dftol) (cols.map (toRow inf lvUpper)) 0 ((dPar inf 0 dftol).inf, -1) = out at h h1 h2
+  obtain ⟨tmax, kmin⟩ := out
+  dsimp only at h h1 h2
+  split at h
+  · rename_i hub
+    intro c hc t ht0 ht
+    have hmem : toRow inf lvUpper c ∈ cols.map (toRow inf lvUpper) := List.mem_map_of_mem hc
+    exact row_step_ok (dPar inf 0 dftol) _ rfl (hfeas c hc) tmax h1 (h2 _ hmem) t ht0 (le_trans ht hub)
+  · split at h
+    · simp at h
+    · split at h
+      · split at h
+        · simp at h
+        · split at h <;> simp at h
+      · simp at h
+
+theorem toRow_y_ne (inf : Rat) (lvUpper : Bool) (c : DCol) (h : (toRow inf lvUpper c).y ≠ 0) :
+    c.skip = false ∧ c.zA ≠ 0 := by
+  unfold toRow dualXY at h
+  cases hs : c.skip with
+  | true => simp [hs] at h
+  | false =>
+    refine ⟨rfl, ?_⟩
+    intro hz
+    apply h
+    simp only [hs, Bool.false_eq_true, if_false]
+    split <;> split <;> simp [hz]
+
+/-- RATIO_BCHANGE on the dual side at tolerance 0 from a dual feasible basis: a non-negative step, no
+coefficient shift, every column stays dual feasible and the entering column's slack becomes 0 -/
+theorem dII_bchange_sound (inf : Rat) (lvUpper : Bool) (cols : List DCol)
+    (hfeas : ∀ c ∈ cols, inBounds (dPar inf 0 0) 0 (toRow inf lvUpper c) (toRow inf lvUpper c).x)
+    (h : (dII inf 0 0 lvUpper cols).stat = .bchange) :
+    ∃ t c, 0 ≤ t ∧ (dII inf 0 0 lvUpper cols).tz = t ∧ (dII inf 0 0 lvUpper cols).coeffch = false ∧
+      0 ≤ (dII inf 0 0 lvUpper cols).eindex ∧ cols[(dII inf 0 0 lvUpper cols).eindex.toNat]? = some c ∧
+      (dII inf 0 0 lvUpper cols).pivot = c.zA ∧ c.skip = false ∧ c.zA ≠ 0 ∧
+      (∀ c' ∈ cols, inBounds (dPar inf 0 0) 0 (toRow inf lvUpper c') (newSlack inf lvUpper c' t)) ∧
+      newSlack inf lvUpper c t = 0 := by
+  have hfeasR : ∀ r ∈ cols.map (toRow inf lvUpper), inBounds (dPar inf 0 0) 0 r r.x := by
+    intro r hr
+    obtain ⟨c, hc, rfl⟩ := List.mem_map.mp hr
+    exact hfeas c hc
+  unfold dII dIIWith dIICore at h ⊢
+  generalize hout : pass1 (dPar inf 0 0) (cols.map (toRow inf lvUpper)) 0 ((dPar inf 0 0).inf, -1) = out at h ⊢
+  obtain ⟨tmax, kmin⟩ := out
+  dsimp only at h ⊢
+  split at h
+  · simp at h
+  rename_i hub
+  rw [if_neg hub]
+  have hlt : tmax < (dPar inf 0 0).inf := not_le.mp hub
+  generalize hs : pass2 (fun a b => decide (a ≤ b)) (dPar inf 0 0) tmax kmin (cols.map (toRow inf lvUpper)) 0 {} = s at h ⊢
+  split at h
+  · simp at h
+  rename_i hidx
+  rw [if_neg hidx]
+  obtain ⟨j, r, hj, hi, htz, _, _, hy0, ht0, hstep, hcase⟩ :=
+    select_exact (dPar inf 0 0) (cols.map (toRow inf lvUpper)) rfl rfl hfeasR tmax kmin hout hlt s hs hidx
+  have htz0 : ¬ s.tz < 0 := by rw [htz]; exact not_lt.mpr ht0
+  rw [if_neg htz0]
+  dsimp only
+  rw [List.getElem?_map] at hj
+  obtain ⟨c, hcj, hcr⟩ := Option.map_eq_some_iff.mp hj
+  subst hcr
+  obtain ⟨hskip, hzA⟩ := toRow_y_ne inf lvUpper c hy0
+  have hidx' : s.indx.toNat = j := by rw [hi]; simp
+  have hcol : colAt cols s.indx = c := by
+    unfold colAt; rw [if_neg hidx, hidx', hcj]; rfl
+  refine ⟨tmax, c, ht0, htz, rfl, by rw [hi]; exact Int.natCast_nonneg _, by rw [hidx']; exact hcj,
+    by rw [hcol], hskip, hzA, ?_, ?_⟩
+  · intro c' hc'
+    exact hstep _ (List.mem_map_of_mem hc')
+  · obtain ⟨hlandL, hlandU⟩ := lands (dPar inf 0 0) (toRow inf lvUpper c) hy0 tmax
+    unfold newSlack
+    rcases hcase with ⟨hL, _, ht⟩ | ⟨hL, hU, huu, ht⟩
+    · rw [hlandL hL ht]; rfl
+    · rw [hlandU hL hU ht]
+      unfold toRow at huu ⊢
+      dsimp only at huu ⊢
+      split
+      · rfl
+      · rename_i hz; exfalso; apply huu; simp only [hz]; rfl
 
 end Qsx.Ratio
